@@ -30,7 +30,11 @@ func (*c01) Rule() string {
 		"one cluster fault (25%: rejected create/patch/delete/get of one resource, hook failure, wait failure), n-th storage write fails (15%), " +
 		"process death before the n-th mutating effect (20%); 30% ledger-stress: 5-10 operations, history limits, failed upgrades, explicit rollback targets; " +
 		"30% fault-then-recover: fault-free prefix, one operation with a crash point or write failure at a random position, then 2-4 recovery operations " +
-		"(a second faulted one in a third of them); non-trivial = at least 2 operations changed the ledger; distinct = hash of (case, observation)"
+		"(a second faulted one in a third of them); 1/8 of the generated histories give one later operation a storage READ fault (the n-th Driver.Get/Query/List " +
+		"of the operation returns an error, n < 6); enumerated on every run: the ledgers 1:deployed 2:failed 3:failed / 1:superseded 2:deployed / 1:superseded 2:deployed " +
+		"3:failed x upgrade (history limit 3, 2, none), rollback to 1 (with and without limit), install --replace, uninstall x EVERY read position of the operation " +
+		"(counted by a fault-free run), followed by a fault-free upgrade; read-fault histories are compared with the model up to the faulted operation (the model has " +
+		"no error answer for a read) and judged by the oracle from there on; non-trivial = at least 2 operations changed the ledger; distinct = hash of (case, observation)"
 }
 
 func engDecode(raw json.RawMessage) (any, error) {
@@ -130,12 +134,14 @@ func (*c01) Corpus() []any {
 			eng.Step{Op: mkOp("rollback", 0, eng.Flags{MaxHistory: 2})})
 		out = append(out, eng.History{Backend: b, Steps: steps})
 	}
+	out = append(out, c01RFailCorpus()...) // storage read faults (c01_rfail.go)
 	return out
 }
 
 func (*c01) Exhaustive(tier string) []any {
+	rf := c01RFailEnum(tier) // storage read faults: every read position (c01_rfail.go)
 	if tier != "thorough" {
-		return nil
+		return rf
 	}
 	// Small scope, exhaustively: histories install; op2; op3 over {install, upgrade, rollback, uninstall} x
 	// {plain, atomic, replace+keep-history+max-history 1} (the first operation is an install: anything else on
@@ -144,7 +150,7 @@ func (*c01) Exhaustive(tier string) []any {
 	//  - with every crash point 0..5 and every storage-write failure position 0..5 on the LAST operation,
 	//  - for length 3 also with each of these faults on the MIDDLE operation followed by a plain recovery
 	//    operation (crash / swallowed write error, then install --replace / upgrade / rollback / uninstall).
-	var out []any
+	out := rf
 	kinds := []string{"install", "upgrade", "rollback", "uninstall"}
 	flagsOf := func(fi int) eng.Flags {
 		f := eng.Flags{}
@@ -204,6 +210,9 @@ func (*c01) Exhaustive(tier string) []any {
 }
 
 func (*c01) Generate(r *rand.Rand, _ int) any {
+	if r.Intn(8) == 0 {
+		return c01GenRFail(r)
+	}
 	switch k := r.Intn(10); {
 	case k < 3:
 		return genLedgerStress(r)
@@ -379,7 +388,8 @@ func engExecute(ci any) any {
 }
 func (*c01) Execute(ci any) any { return engExecute(ci) }
 
-func (*c01) CoqCase(ci, oi any) string { return eng.CoqCase(ci.(eng.History), oi.(eng.Obs)) }
+// the model has no error answer for a storage read: a history is compared up to its first read-faulted operation
+func (*c01) CoqCase(ci, oi any) string { return eng.CoqCase(eng.TruncateAtRFail(ci.(eng.History), oi.(eng.Obs))) }
 
 func (*c01) Class(ci, _ any) string {
 	h := ci.(eng.History)
@@ -389,9 +399,11 @@ func (*c01) Class(ci, _ any) string {
 			continue
 		}
 		switch {
-		case s.Op.Crash != nil:
+		case s.Op.RFail != nil:
+			cls = "readfault"
+		case s.Op.Crash != nil && cls != "readfault":
 			cls = "crash"
-		case s.Op.WFail != nil && cls != "crash":
+		case s.Op.WFail != nil && cls != "crash" && cls != "readfault":
 			cls = "wfail"
 		case (s.Op.KFault != nil || s.Op.HFault != nil || s.Op.WaitFail) && cls == "nofault":
 			cls = "clusterfault"
@@ -626,6 +638,12 @@ func (*c01) Oracle(ci, oi any) []hx.Violation {
 			if extra := len(fresh) - 1; len(led)-extra > n && !(len(led)-extra == n+1 && depBefore >= 0 && now[depBefore] && n == 1) {
 				add("C01:history-limit-exceeded", fmt.Sprintf("step %d: max-history %d but %d revisions remain: %v", i, n, len(led), ledgerProj(led)))
 			}
+		}
+		// upgrade and rollback delete records only by pruning: a Delete must never hit a record whose STORED status is
+		// deployed (seen by the recording driver wrapper, so also when the operation failed later on)
+		if (op.Kind == "upgrade" || op.Kind == "rollback") && op.WFail == nil && op.Crash == nil && len(so.DelDeployed) > 0 && !alreadyTwo(prev) {
+			add("C01:pruned-deployed", fmt.Sprintf("step %d (%s --history-max %d): the record of revision %v was deleted while its stored status was deployed; before: %v, after: %v",
+				i, op.Kind, op.Flags.MaxHistory, so.DelDeployed, ledgerProj(prev), ledgerProj(led)))
 		}
 		prev = led
 	}
